@@ -205,12 +205,13 @@ class SumAggregator:
                 return False
         return True
 
-    def _replace_elements(self, elements: list[AST], prg: list[AST]) -> list[AST]:
+    def _replace_elements(self, elements: list[AST], prg: list[AST], outside: Optional[set[AST]] = None) -> list[AST]:
         newelements = []
         for elem in elements:
             assert elem.ast_type == ASTType.BodyAggregateElement
             if elem.terms and len(elem.terms) > 0:
-                if not self._element_passes(elem, elements):
+                # a weight that is also used outside of the aggregate is fixed by the rule, not by the chosen atom
+                if not self._element_passes(elem, elements) or (outside and elem.terms[0] in outside):
                     newelements.append(elem)
                     continue
 
@@ -392,7 +393,8 @@ class SumAggregator:
                         atom = blit.atom
                         # not #sum+: it ignores a negative first value of a chain but counts the differences to it
                         if atom.ast_type == ASTType.BodyAggregate and atom.function == AggregateFunction.Sum:
-                            newatom = atom.update(elements=self._replace_elements(atom.elements, ret))
+                            outside = set(collect_ast(stm.update(body=[x for x in stm.body if x != blit]), "Variable"))
+                            newatom = atom.update(elements=self._replace_elements(atom.elements, ret, outside))
                             newbody.append(blit.update(atom=newatom))
                         else:
                             newbody.append(blit)
